@@ -11,7 +11,6 @@ import (
 	"golang.org/x/tools/go/ssa"
 
 	"verif/tools/internal/absint"
-	"verif/tools/internal/core"
 )
 
 // The XSS side: the API root (IsXSS → isXSS ×5 → init, classifier) with the
@@ -36,7 +35,57 @@ type xssRoots struct {
 	posGE1 map[*ssa.Function]bool
 	posLT  map[*ssa.Function]bool
 	posEQ0 map[*ssa.Function]bool
+	// prevEnd (end of the previously emitted token) ≤ pos / ≤ pos-1 at entry
+	gap0, gap1 map[*ssa.Function]bool
+	// shortest accepted terminator length per search call (refined across rounds)
+	cmin   map[ssa.Instruction]int
+	cseen  map[ssa.Instruction]int
+	trans  []transition // of the last round
+	ctx    map[string]*xssCtx
 	rounds int
+	peel   bool // peel loops in the state roots (C17: "first search" vs "search after a rejected candidate")
+}
+
+// xssCtx is what rule hooks need to know about a state root.
+type xssCtx struct {
+	H       absint.PtrV
+	In      absint.StrV
+	Pos0    absint.Lin
+	PrevEnd absint.Lin
+}
+
+func (xr *xssRoots) setCtx(name string, c *xssCtx) {
+	xr.mu.Lock()
+	defer xr.mu.Unlock()
+	if xr.ctx == nil {
+		xr.ctx = map[string]*xssCtx{}
+	}
+	xr.ctx[name] = c
+}
+
+func (xr *xssRoots) getCtx(name string) *xssCtx {
+	xr.mu.Lock()
+	defer xr.mu.Unlock()
+	return xr.ctx[name]
+}
+
+// noteAccepted records that a terminator found by search call org was accepted
+// with the cursor moved at least c bytes past its first byte.
+func (xr *xssRoots) noteAccepted(org ssa.Instruction, c int) {
+	xr.mu.Lock()
+	defer xr.mu.Unlock()
+	if old, ok := xr.cseen[org]; !ok || c < old {
+		xr.cseen[org] = c
+	}
+}
+
+func (xr *xssRoots) minTerminator(org ssa.Instruction) int {
+	xr.mu.Lock()
+	defer xr.mu.Unlock()
+	if c, ok := xr.cmin[org]; ok {
+		return c
+	}
+	return 4
 }
 
 func (xr *xssRoots) field(role string) string { return xr.env.a.Fields[role] }
@@ -103,10 +152,15 @@ func (xr *xssRoots) nextSummary(e *absint.Engine, st *absint.State, fr *absint.F
 }
 
 type transition struct {
+	from  *ssa.Function
 	to    *ssa.Function
 	ge1   bool
 	lt    bool
 	eq0   bool
+	gap0  bool // end of the last emitted token ≤ new cursor
+	gap1  bool // … ≤ new cursor - 1
+	adv   bool // the cursor moved forward by at least one byte
+	emit  bool // may emit a token
 	where string
 }
 
@@ -117,17 +171,20 @@ func (xr *xssRoots) stateRoot(fn *ssa.Function, extra func(name string, hooks *a
 	var mu sync.Mutex
 	var H absint.PtrV
 	var in absint.StrV
+	var pos0, prevEnd absint.Lin
 	cfg := env.config()
+	cfg.Peel = xr.peel
 	stateFld := xr.field("xss.state.state")
 	cfg.Hooks.OnReturn = func(e *absint.Engine, st *absint.State, fr *absint.Frame, ret *ssa.Return, val absint.AVal) {
 		if fr.Depth() != 0 {
 			return
 		}
-		where := core.Short(ret.String())
+		where := retLabel(ret)
 		ps, okp := e.CellOf(st, H, xr.field("xss.state.pos"))
 		psI, okP := ps.(absint.IntV)
 		e.Check(st, fr, ret.Pos(), "I-post", "0 ≤ pos ≤ len at "+where, okp && okP && e.ProveLE(st, absint.K(0), psI.L) && e.ProveLE(st, psI.L, absint.StrLenOf(in)), "the cursor may leave the input")
 		b, _ := val.(absint.BoolV)
+		newPrevEnd := prevEnd
 		if b.Known != 2 {
 			// a token is emitted: T-span
 			ts, ok1 := e.CellOf(st, H, xr.field("xss.state.tokenStart"))
@@ -143,30 +200,45 @@ func (xr *xssRoots) stateRoot(fn *ssa.Function, extra func(name string, hooks *a
 				inside := tsS.Const == nil && tsS.Root == in.Root && e.ProveLE(st, in.Lo, tsS.Lo) && e.ProveLE(st, tsS.Lo, in.Hi)
 				e.Check(st, fr, ret.Pos(), "T-span", "tokenStart is a suffix of the input at "+where, inside, "token does not start inside the input")
 				e.Check(st, fr, ret.Pos(), "T-span", "0 ≤ tokenLen ∧ offset+tokenLen ≤ len(s) at "+where, inside && e.ProveLE(st, absint.K(0), tlI.L) && e.ProveLE(st, tsS.Lo.Add(tlI.L), in.Hi), "token length may exceed what is left of the input")
+				if inside {
+					newPrevEnd = tsS.Lo.Sub(in.Lo).Add(tlI.L)
+				}
 			}
+		}
+		if !e.Logging() {
+			return
 		}
 		// where does the machine go next?
 		sv, okc := e.CellOf(st, H, stateFld)
+		var target *ssa.Function
 		if okc && !e.IsFreshCell(st, H, stateFld) {
 			f, isF := sv.(absint.FuncV)
 			e.Check(st, fr, ret.Pos(), "B-nil", "state stored at "+where, isF && f.Fn != nil, "the state variable may be nil or is not a bound state method")
 			if isF && f.Fn != nil {
-				target := f.Fn
+				target = f.Fn
 				if obj := target.Object(); obj != nil {
 					if m := env.p.FuncByQualName(env.a.TypeName("xss.state") + "." + obj.Name()); m != nil {
 						target = m
 					}
 				}
-				tr := transition{to: target, where: fn.Name() + ": " + where}
-				if okp && okP {
-					tr.ge1 = e.ProveLE(st, absint.K(1), psI.L)
-					tr.lt = e.ProveLE(st, psI.L.AddK(1), absint.StrLenOf(in))
-					tr.eq0 = e.ProveEQ(st, psI.L, absint.K(0))
-				}
-				mu.Lock()
-				trans = append(trans, tr)
-				mu.Unlock()
 			}
+		} else if okc {
+			target = fn // the state variable was not written: the machine stays where it is
+		}
+		if target != nil && b.Known != 2 {
+			// (a step that reports no token ends the token loop: no transition)
+			tr := transition{from: fn, to: target, where: fn.Name() + ": " + where, emit: true}
+			if okp && okP {
+				tr.ge1 = e.ProveLE(st, absint.K(1), psI.L)
+				tr.lt = e.ProveLE(st, psI.L.AddK(1), absint.StrLenOf(in))
+				tr.eq0 = e.ProveEQ(st, psI.L, absint.K(0))
+				tr.gap0 = e.ProveLE(st, newPrevEnd, psI.L)
+				tr.gap1 = e.ProveLE(st, newPrevEnd.AddK(1), psI.L)
+				tr.adv = e.ProveLE(st, pos0.AddK(1), psI.L)
+			}
+			mu.Lock()
+			trans = append(trans, tr)
+			mu.Unlock()
 		}
 	}
 	if extra != nil {
@@ -176,6 +248,17 @@ func (xr *xssRoots) stateRoot(fn *ssa.Function, extra func(name string, hooks *a
 		H, in = env.h5StateSetup(e, st, fr, fn.Params[0], func(pos, length absint.Lin) {})
 		ps, _ := e.CellOf(st, H, xr.field("xss.state.pos"))
 		pos := ps.(absint.IntV).L
+		pos0 = pos
+		prevEnd = e.NewInt(st, "prevEnd")
+		e.AssumeLE(st, absint.K(0), prevEnd)
+		e.AssumeLE(st, prevEnd, absint.StrLenOf(in))
+		if xr.gap0[fn] {
+			e.AssumeLE(st, prevEnd, pos)
+		}
+		if xr.gap1[fn] {
+			e.AssumeLE(st, prevEnd.AddK(1), pos)
+		}
+		xr.setCtx("state:"+fn.Name(), &xssCtx{H: H, In: in, Pos0: pos0, PrevEnd: prevEnd})
 		if xr.posGE1[fn] {
 			e.AssumeLE(st, absint.K(1), pos)
 		}
@@ -222,6 +305,8 @@ func (xr *xssRoots) runAll(extra func(name string, hooks *absint.Hooks)) {
 	}
 	sort.Slice(states, func(i, j int) bool { return states[i].Name() < states[j].Name() })
 	xr.posGE1, xr.posLT, xr.posEQ0 = map[*ssa.Function]bool{}, map[*ssa.Function]bool{}, map[*ssa.Function]bool{}
+	xr.gap0, xr.gap1 = map[*ssa.Function]bool{}, map[*ssa.Function]bool{}
+	xr.cmin = map[ssa.Instruction]int{}
 	isStart := map[*ssa.Function]bool{}
 	for _, s := range g.Starts {
 		isStart[s] = true
@@ -232,11 +317,14 @@ func (xr *xssRoots) runAll(extra func(name string, hooks *absint.Hooks)) {
 		xr.posGE1[fn] = !isStart[fn]
 		xr.posLT[fn] = !isStart[fn]
 		xr.posEQ0[fn] = isStart[fn] // init enters a start state with the cursor at 0
+		xr.gap0[fn] = true          // nothing emitted yet: prevEnd = 0 ≤ pos
+		xr.gap1[fn] = !isStart[fn]
 	}
 	for round := 0; round < 8; round++ {
 		xr.rounds = round + 1
 		xr.mu.Lock()
 		xr.runs = nil
+		xr.cseen = map[ssa.Instruction]int{}
 		xr.mu.Unlock()
 		var wg sync.WaitGroup
 		sem := make(chan struct{}, 14)
@@ -252,8 +340,24 @@ func (xr *xssRoots) runAll(extra func(name string, hooks *absint.Hooks)) {
 		}
 		wg.Wait()
 		changed := false
+		xr.trans = nil
+		for org, c := range xr.cseen {
+			if xr.minTerminator(org) != c {
+				xr.cmin[org] = c
+				changed = true
+			}
+		}
 		for _, trs := range all {
+			xr.trans = append(xr.trans, trs...)
 			for _, tr := range trs {
+				if xr.gap0[tr.to] && !tr.gap0 {
+					xr.gap0[tr.to] = false
+					changed = true
+				}
+				if xr.gap1[tr.to] && !tr.gap1 {
+					xr.gap1[tr.to] = false
+					changed = true
+				}
 				if xr.posGE1[tr.to] && !tr.ge1 {
 					xr.posGE1[tr.to] = false
 					changed = true
@@ -379,7 +483,7 @@ func (xr *xssRoots) describe() []string {
 	var facts []string
 	for fn, v := range xr.posGE1 {
 		if v || xr.posLT[fn] || xr.posEQ0[fn] {
-			facts = append(facts, fmt.Sprintf("%s[pos≥1:%v pos<len:%v pos=0:%v]", fn.Name(), v, xr.posLT[fn], xr.posEQ0[fn]))
+			facts = append(facts, fmt.Sprintf("%s[pos≥1:%v pos<len:%v pos=0:%v prevEnd≤pos:%v prevEnd<pos:%v]", fn.Name(), v, xr.posLT[fn], xr.posEQ0[fn], xr.gap0[fn], xr.gap1[fn]))
 		}
 	}
 	sort.Strings(facts)
